@@ -55,7 +55,7 @@ ASSUMPTIONS = [
     'positional INSERTs carry a value for every declared attribute, or leave out only trailing REFERENTIAL attributes (these stay '
     'unset: an unset key refers to nothing); any other missing attribute would take a generator-drawn / type default (C19)',
     'REAL values are dyadic rationals with at most six fraction digits (float() and %f are exact on them)',
-    'the order in which os.walk lists sibling files is the operating system\'s; it is read off loader.statements',
+    'the order in which os.walk lists sibling files is the operating system\'s; the harness takes it from its own os.walk of the tree',
 ]
 TRUSTED_EXTRA = ['harness/loadgen.py (generator, SQL text writer, nested-loop oracle)']
 CHUNK = 60
@@ -193,7 +193,7 @@ def generate(ctx):
     n_api = ctx.pick(260, 3000)
     n_err = ctx.pick(40, 300)
     n_shared = ctx.pick(60, 600)
-    all_routes = ['files', 'bp-file', 'bp-dir', 'bp-dirwide', 'bp-zip', 'keep-order']
+    all_routes = ['files', 'bp-file', 'bp-dir', 'bp-dirwide', 'bp-zip', 'bp-load', 'keep-order']
     i = 0
     # small populations: every permutation
     made = 0
@@ -242,7 +242,7 @@ def generate(ctx):
         r = rng.fork('shared', j)
         stmts = G.gen_shared_index_population(r)
         yield {'fam': 'shared-index', 'stmts': stmts,
-               'variants': _fix(r, stmts, _variants(r, len(stmts), 0, 8, ['keep-order'] + r.sample(all_routes[:5], 1))),
+               'variants': _fix(r, stmts, _variants(r, len(stmts), 0, 8, ['keep-order'] + r.sample(all_routes[:6], 1))),
                'api': j % 2 == 0}
     for j in range(n_err):
         r = rng.fork('err', j)
@@ -329,6 +329,25 @@ def _load(stmts, v, mine, cache=None):
                     f.write(_part_text(p, n, v))
                 names.append(fn)
             return _x.load_metamodel(names if len(names) > 1 else names[0]), v['order']
+        if route == 'bp-load':
+            # bridgepoint.ooaofooa.load_metamodel with a LIST of resources of all three sorts: a file, a directory, an archive
+            paths = []
+            for n, p in enumerate(parts):
+                if n % 3 == 0:
+                    fn = os.path.join(d, 'f%d.xtuml' % n)
+                    with open(fn, 'w') as f:
+                        f.write(_part_text(p, n, v))
+                elif n % 3 == 1:
+                    fn = os.path.join(d, 'dir %d' % n)
+                    os.mkdir(fn)
+                    with open(os.path.join(fn, 'p.xtuml'), 'w') as f:
+                        f.write(_part_text(p, n, v))
+                else:
+                    fn = os.path.join(d, 'arch%d.zip' % n)
+                    with zipfile.ZipFile(fn, 'w') as z:
+                        z.writestr('models/p.xtuml', _part_text(p, n, v))
+                paths.append(fn)
+            return _bp.load_metamodel(paths if len(paths) > 1 else paths[0], load_globals=False), v['order']
         l = _bp.ModelLoader(load_globals=False)
         decoy = "INSERT INTO %s VALUES (1);\n" % (sorted(mine)[0] if mine else 'KA')   # wrong suffix: must not be read
         if route == 'bp-file':
@@ -364,6 +383,10 @@ def _load(stmts, v, mine, cache=None):
                     # one file per directory level: os.walk visits a directory's files before its sub-directories
                     cur = os.path.join(cur, _SUB_NAMES[(pick + k) % len(_SUB_NAMES)])
                     os.mkdir(cur)
+            walked = []     # the order in which a top-down walk of the tree lists the files: from the file system,
+            for r_ in roots:   # not from the loader
+                for path_, _, files_ in os.walk(r_):
+                    walked.extend(int(f_.lstrip('.')[1:-6]) for f_ in files_ if f_.endswith('.xtuml'))
             for r_ in roots:
                 l.filename_input(r_)
         elif route == 'bp-zip':
@@ -382,14 +405,8 @@ def _load(stmts, v, mine, cache=None):
             raise ValueError(route)
         order = v['order']
         if route == 'bp-dirwide':
-            # the directory walk order of sibling files is the operating system's: read it off the loader
-            seen = []
-            for st in l.statements:
-                fn = os.path.basename(st.filename or '').lstrip('.')
-                if fn.startswith('p') and fn.endswith('.xtuml') and os.path.dirname(st.filename).startswith(d):
-                    k = int(fn[1:-6])
-                    if k not in seen:
-                        seen.append(k)
+            # the directory walk order of sibling files is the operating system's: taken from the harness's own os.walk
+            seen = walked
             starts = [sum(v['parts'][:k]) for k in range(len(v['parts']))]
             order = [i for k in seen for i in v['order'][starts[k]:starts[k] + v['parts'][k]]]
             if sorted(order) != sorted(v['order']):
@@ -525,6 +542,71 @@ def _check_exact(stmts, v, m, dump, expected, fail):
         for j, is_ in enumerate(src):
             if is_ != sorted(is_) or len(set(is_)) != len(is_):
                 fail('partner-order', 'partners of %s over %s are not in instance order: %r' % (_show(stmts, T[j]), rel, is_))
+                return
+
+
+_TY_OF_TAG = {'i': 'INTEGER', 's': 'STRING', 'b': 'BOOLEAN', 'u': 'UNIQUE_ID', 'r': 'REAL'}
+
+
+def _canon_raw(tv):
+    if tv is None:
+        return Sym('none')
+    tag, val = tv
+    if tag == 'b':
+        return [Sym('b'), Sym('T') if val else Sym('F')]
+    return [Sym(tag), val]
+
+
+def _check_rows(stmts, v, dump, raw, fail):
+    """D, from the INPUT alone: every class holds the attributes and identifiers its statements give it, and its i-th
+    instance holds the values of the i-th INSERT of the kind — every attribute that is not referential with the value
+    as written (None when left out), no referential attribute at all.  (The positions by which the link checks name
+    the instances are thereby tied to the generated rows, not to anything read from the metamodel.)"""
+    ids = _ids_by_kind(stmts, v['order'])
+    got = dict((c[0], c) for c in dump[2])
+    kinds = []
+    for i in v['order']:
+        s = stmts[i]
+        if s['t'] == 'cls' and s['kind'] not in kinds:
+            kinds.append(s['kind'])
+    for i in v['order']:
+        s = stmts[i]
+        if s['t'] == 'insert' and s['kind'] not in kinds:
+            kinds.append(s['kind'])
+    if sorted(kinds) != sorted(got):
+        fail('class-set', 'the metamodel holds the classes %s, the input gives %s; input:\n%s'
+             % (sorted(got), sorted(kinds), G.text_of([stmts[k] for k in v['order']])))
+        return
+    for kind in kinds:
+        c = G.class_of(stmts, kind)
+        first = [stmts[i] for i in ids.get(kind, [])][:1]
+        if c is not None:
+            attrs = [[n, Sym(G.TYSYM[t])] for n, t in c['attrs']]
+        else:
+            names = first[0]['names'] if first[0]['names'] else ['_%d' % k for k in range(len(first[0]['vals']))]
+            attrs = [[n, Sym(G.TYSYM[_TY_OF_TAG[tv[0]]])] for n, tv in zip(names, first[0]['vals'])]
+        uniq = {}
+        for i in v['order']:
+            s = stmts[i]
+            if s['t'] == 'uniq' and s['kind'] == kind and s['attrs']:
+                uniq[s['name']] = list(s['attrs'])
+        refs = _referential(stmts, kind)
+        _, gattrs, gidx, grows = got[kind]
+        if gattrs != attrs or sorted(map(repr, gidx)) != sorted(repr([n, a]) for n, a in uniq.items()):
+            fail('class-shape', 'class %s has attributes %s / identifiers %s, the input gives %s / %s; input:\n%s'
+                 % (kind, dumps(gattrs), dumps(gidx), dumps(attrs), dumps([[n, a] for n, a in uniq.items()]),
+                    G.text_of([stmts[k] for k in v['order']])))
+            return
+        S = ids.get(kind, [])
+        if len(grows) != len(S):
+            fail('instance-count', 'class %s holds %d instances, the input has %d INSERTs' % (kind, len(grows), len(S)))
+            return
+        for k, row in enumerate(grows):
+            want = sorted(repr([n, _canon_raw(raw[S[k]].get(n))]) for n, _ in attrs if n not in refs)
+            if sorted(map(repr, row)) != want:
+                fail('row-differs', 'instance %d of %s holds %s; %s gives %s (referential attributes %s are not stored); '
+                     'input (route %s, parts %s):\n%s' % (k, kind, dumps(row), _show(stmts, S[k]), want, sorted(refs),
+                                                          v['route'], v['parts'], G.text_of([stmts[j] for j in v['order']])))
                 return
 
 
@@ -879,6 +961,42 @@ def _check_api(route, stmts, raw, order, dump, outcomes, expected, fail, modelle
     return None
 
 
+def _check_batch_relate(stmts, raw, expected, fail, stats):
+    """`Association.batch_relate`: the second implementation of the join in xtuml/meta.py (a query per referring instance
+    instead of the loader's hash index).  The phases of the loader are run up to the instances, then every association
+    is batch-related; D: the links are exactly the key-matching pairs."""
+    l = _x.ModelLoader()
+    l.input(G.text_of(stmts))
+    m = _x.MetaModel()
+    try:
+        l.populate_classes(m)
+        l.populate_unique_identifiers(m)
+        l.populate_associations(m)
+        l.populate_instances(m)
+        for ass in m.associations:
+            ass.batch_relate()
+    except RecursionError:
+        return          # a cyclic chain of referential properties (A.x -> B.y -> A.x): nothing to compare
+    except _DOC as e:
+        fail('batch-relate-raises', 'Association.batch_relate raised %s: %s; input:\n%s' % (type(e).__name__, e, G.text_of(stmts)))
+        return
+    stats['batch_relate'] = 1
+    ids = _ids_by_kind(stmts, range(len(stmts)))
+    ai = [i for i, s_ in enumerate(stmts) if s_['t'] == 'assoc']
+    for n, ass in enumerate(m.associations):
+        a = stmts[ai[n]]
+        S, T = ids.get(a['sk'], []), ids.get(a['tk'], [])
+        sc, tc = ass.source_link.to_metaclass, ass.target_link.to_metaclass
+        spos = dict((id(o), S[k]) for k, o in enumerate(sc.storage))
+        tpos = dict((id(o), T[k]) for k, o in enumerate(tc.storage))
+        f = set((spos.get(id(i_)), tpos.get(id(o))) for i_ in sc.storage for o in ass.target_link.get(i_, ()))
+        b = set((spos.get(id(o)), tpos.get(id(i_))) for i_ in tc.storage for o in ass.source_link.get(i_, ()))
+        if f != expected[ai[n]] or b != expected[ai[n]]:
+            fail('batch-relate-differs', 'Association.batch_relate links %s / %s over %s, the key predicate gives %s; input:\n%s'
+                 % (sorted(f, key=str), sorted(b, key=str), a['rel'], sorted(expected[ai[n]]), G.text_of(stmts)))
+            return
+
+
 # ----------------------------------------------------------------------------- run_impl
 
 def run_impl(case):
@@ -915,6 +1033,8 @@ def run_impl(case):
                 fail('load-raises', 'build raised %s: %s on the in-domain input (route %s, parts %s):\n%s'
                      % (type(e).__name__, e, v['route'], v['parts'], G.text_of([stmts[i] for i in v['order']])))
         if m is not None:
+            if v['route'] != 'stmts' or n % 8 == 1:
+                _check_rows(stmts, v, dump, raw, fail)
             _check_exact(stmts, v, m, dump, expected, fail)
             if v['route'] != 'stmts' or n % 16 == 1:
                 _check_navigation(stmts, v, m, expected, fail, mine)
@@ -935,6 +1055,8 @@ def run_impl(case):
                     stats['instance_order_differs'] = stats.get('instance_order_differs', 0) + 1
         seen_orders.append(v['order'])
         obs.append(dump if n == 0 else _digest(dump))
+    if case.get('api') and base_dump is not None and base_dump[0] == 'ok':
+        _check_batch_relate(stmts, raw, expected, fail, stats)
     api_obs = None
     if case.get('api') and base_dump is not None and base_dump[0] == 'ok' \
             and all(G.class_of(stmts, stmts[i]['kind']) for i in ins_ids):
